@@ -262,8 +262,18 @@ def R2_growth(ctx):
         else:
             want = tuple(("tuple", (fld(variant, "k%d" % j), ("call", new, (fld(variant, "v%d" % j), ("const", "usize", j - 1))))) for j in range(1, 5)) + (("tuple", (("arg", 2), ("call", new, (("arg", 3), ("const", "usize", 4))))),)
             ok = len(arrs) >= 1 and arrs[0][1] == want and any(a[2] == "NEntries" for a in aggs)
+            if not ok:
+                ok = _growth_loop_form(F, b, variant, want, new) and any(a[2] == "NEntries" for a in aggs)
             ctx.check(ok, "grow:FourEntries->NEntries", "4 -> N does not build the hash map {k1:0, k2:1, k3:2, k4:3, new:4}: %s" % (short(arrs[0])[:260] if arrs else None), b.where(), detail="indices 0,1,2,3,4")
         okw = unmut(r.ret) == none and len(swaps) == 1 and swaps[0][0] == SELF
+        if not okw and unmut(r.ret) == none and not swaps:
+            # `*self = grown` instead of mem::swap(self, &mut grown)
+            assigns = []
+            for bb in r.path.blocks:
+                for pos, s in enumerate(b.blocks[bb]["stmts"]):
+                    if s["k"] == "assign" and s["place"]["l"] == 1 and [e["k"] for e in s["place"]["p"]] == ["deref"]:
+                        assigns.append(unmut(nosite(deep_strip(ptm.rvalue(s["rv"], bb, pos)))))
+            okw = len(assigns) == 1 and assigns[0][0] == "agg" and assigns[0][1] == ADT and (variant not in NEXT or assigns[0][2] == NEXT[variant]) and (variant in NEXT or assigns[0][2] == "NEntries")
         ctx.check(okw, "grow:%s:installed" % variant, "the grown representation is not swapped into self (returning None)", b.where())
     # empty -> OneEntry
     rows = [rows for (v, dec), rows in g.items() if v == "NEntries" and any(t[0] == "call" and t[1].endswith("is_empty") and tr for t, tr in dec)]
@@ -294,17 +304,111 @@ def R2_growth(ctx):
         ctx.check(ok, "new:%s" % variant, "new() does not build %s from entries[0..%d] in order: %s" % (variant, n, short(a)[:200] if a else None), nb.where(), detail="k_j = entries[j-1].0")
 
 
+def _growth_loop_form(F, b, variant, want, new):
+    """the five-entry map filled by a loop: for (i, (k, v)) in [(k1,v1),..,(k4,v4)].into_iter().enumerate() { map.insert(k, IndexedEntry::new(v, i)) };
+    map.insert(k, IndexedEntry::new(v, 4)) — unrolled it is exactly the literal the other spelling writes"""
+    for e in elementwise_builds(b):
+        if e["form"] != "loop" or not (e.get("sink") or "").startswith("std::collections::HashMap::<K, V, S, A>::insert") or len(e["values"]) != 2:
+            continue
+        src = clean(e["src"])
+        while src[0] == "call" and len(src[2]) == 1 and re.search(r"::into_iter$|::iter$", src[1].split("{")[0]) and src[2][0][0] == "call":
+            src = src[2][0]
+        if not (src[0] == "call" and itm(src[1], "enumerate")):
+            continue
+        arr = src[2][0]
+        while arr[0] == "call" and len(arr[2]) == 1 and re.search(r"::into_iter$|::iter$", arr[1].split("{")[0]):
+            arr = arr[2][0]
+        if arr[0] != "array" or len(arr[1]) != 4:
+            continue
+        got = []
+        for i, item in enumerate(arr[1]):
+            el = ("tuple", (("const", "usize", i), item))
+            kv = tuple(proj_simplify(rewrite(clean(v), lambda y: el if y == ("elem",) else None)) for v in e["values"])
+            got.append(("tuple", kv))
+        recv = clean(e["sink_recv"])
+        # the fifth insert, after the loop, into the same map
+        tm = Terms(b)
+        lp = [set(bl) for h, bl in b.natural_loops() if e["site"].bb in bl]
+        last = []
+        for c in b.calls():
+            if c.callee and c.callee.startswith("std::collections::HashMap::<K, V, S, A>::insert") and clean(tm.operand(c.args[0], c.bb)) == recv and not any(c.bb in l for l in lp):
+                last.append(("tuple", (clean(tm.operand(c.args[1], c.bb)), clean(tm.operand(c.args[2], c.bb)))))
+        if len(last) == 1 and tuple(got) + (last[0],) == tuple(clean(w) for w in want):
+            return True
+    return False
+
+
 def R3_dense_index(ctx):
     """C11.R3 NEntries dense-index invariant"""
     F = ctx.F
     ctx.rule("C11.R3", "hash-map representation: a fresh key receives index = map.len() (evaluated before the insertion), an existing key keeps its index; new() enumerates; get_pair finds by index; keys/into_iter sort by index; the iterator advances by one and stops at len()", floor=9)
     b = F.need(MAP + "insert")
     tm = Terms(b)
-    ins = [c for c in b.calls() if c.callee and c.callee.startswith("std::collections::HashMap::<K, V, S, A>::insert")]
-    if len(ins) != 1:
-        raise AnchorMissing("HashMap::insert in CompactOrderedHashMap::insert (found %d)" % len(ins))
-    c = ins[0]
     m = ("field", ("variant", SELF, "NEntries"), "0")
+    ins = [c for c in b.calls() if c.callee and c.callee.startswith("std::collections::HashMap::<K, V, S, A>::insert") and unmut(nosite(deep_strip(tm.operand(c.args[0], c.bb)))) == m]
+    if not ins and _entry_form(ctx, F, b, tm, m):
+        ins = None
+    elif len(ins) != 1:
+        raise AnchorMissing("HashMap::insert in CompactOrderedHashMap::insert (found %d)" % len(ins))
+    if ins is not None:
+        _insert_form(ctx, F, b, tm, m, ins[0])
+    _dense_index_rest(ctx, F)
+
+
+def _entry_form(ctx, F, b, tm, m):
+    """match map.entry(k) { Occupied(o) => replace only o.get_mut().v, return the old value; Vacant(v) => v.insert(IndexedEntry::new(v,
+    map.len() read before)), None }: the same transition as get/insert.  False when the entry API is not used."""
+    ents = [c for c in b.calls() if c.callee and c.callee.startswith("std::collections::HashMap::<K, V, S, A>::entry") and unmut(nosite(deep_strip(tm.operand(c.args[0], c.bb)))) == m]
+    if len(ents) != 1:
+        return False
+    e = ents[0]
+    E = nosite(deep_strip(tm.call_term(e.term, e.bb)))
+    oke = unmut(nosite(deep_strip(tm.operand(e.args[1], e.bb)))) == ("arg", 2)
+    occ_t = vac_t = None
+    for sbb, dt, names, t in switches(b, tm):
+        d = nosite(deep_strip(dt))
+        if d == ("discr", E) and names and set(names.values()) == {"Occupied", "Vacant"}:
+            occ_t, vac_t = switch_target(t, names, "Occupied"), switch_target(t, names, "Vacant")
+    oke = oke and occ_t is not None
+    ctx.check(oke, "insert:entry", "the hash-map arm does not look the key up with map.entry(k) and handle both cases", e.where())
+    if not oke:
+        return True
+    ln = ("call", "std::collections::HashMap::<K, V, S, A>::len", (m,))
+    vins = [c for c in b.calls() if c.callee and re.search(r"VacantEntry::<.*>::insert$", c.callee.split("{")[0]) and b.dominates(vac_t, c.bb)]
+    okv = len(vins) == 1
+    if okv:
+        a = [unmut(nosite(deep_strip(tm.operand(x, vins[0].bb)))) for x in vins[0].args]
+        okv = a[0] == ("field", ("variant", E, "Vacant"), "0") and a[1][0] == "call" and a[1][1] == C + "IndexedEntry::<V>::new" and a[1][2][0] == ("arg", 3)
+        if okv:
+            A = Arith(F, {ln: "len"})
+            d = A.ev(a[1][2][1])
+            ctx.check(d.equals(Ratio(Poly.sym("len"))), "insert:fresh-index=len", "a fresh key gets index %r, expected map.len() (dense indices 0..n-1)" % d, vins[0].where(), detail=repr(d))
+    if not okv:
+        ctx.bad("insert:index-shape", "the vacant case does not insert IndexedEntry::new(v, index)", e.where())
+    lens = [x for x in b.calls() if x.callee and x.callee.startswith("std::collections::HashMap::<K, V, S, A>::len") and unmut(nosite(deep_strip(tm.operand(x.args[0], x.bb)))) == m]
+    ctx.check(bool(lens) and bool(vins) and all(b.dominates(x.bb, vins[0].bb) and x.bb != vins[0].bb for x in lens), "insert:len-before-insert", "map.len() is read after the insertion", e.where())
+    # occupied: only the value changes
+    region = [bb for bb in b.reachable(start=occ_t) if b.dominates(occ_t, bb)]
+    writes, bad = [], []
+    for bb in region:
+        t = b.blocks[bb]["term"]
+        if t["k"] == "call":
+            ck = callee_key(t["func"]) or ""
+            if re.search(r"OccupiedEntry::<.*>::(insert|remove|remove_entry|replace_entry|replace_key)$", ck.split("{")[0]) or ck == C + "IndexedEntry::<V>::new":
+                bad.append(ck.split("::")[-1])
+            if ck.endswith("mem::replace") or ck.endswith("mem::swap"):
+                a = [unmut(nosite(deep_strip(tm.operand(x, bb)))) for x in t["args"]]
+                writes.append(a)
+        for pos, st_ in enumerate(b.blocks[bb]["stmts"]):
+            if st_["k"] == "assign" and st_["place"]["p"] and any(pe.get("name") == "index" for pe in st_["place"]["p"]):
+                bad.append("store to .index")
+    target = ("field", ("call", "std::collections::OccupiedEntry::<'a, K, V, A>::get_mut", (("field", ("variant", E, "Occupied"), "0"),)), "v")
+    okk = not bad and len(writes) == 1 and writes[0][0] == target and writes[0][1] == ("arg", 3)
+    ctx.check(okk, "insert:existing-keeps-index", "an existing key does not keep its own index (occupied entry: only the value may be replaced): %s %s" % (bad[:2], [short(w[0])[:80] for w in writes][:2]), e.where(), detail="replace(&mut occupied.get_mut().v, v)")
+    return True
+
+
+def _insert_form(ctx, F, b, tm, m, c):
     args = [unmut(nosite(deep_strip(tm.operand(x, c.bb)))) for x in c.args]
     ok = args[0] == m and args[1] == ("arg", 2) and args[2][0] == "call" and args[2][1] == C + "IndexedEntry::<V>::new" and args[2][2][0] == ("arg", 3)
     ctx.check(ok, "insert:entry", "the hash-map arm does not insert (k, IndexedEntry::new(v, index)) into the map", c.where())
@@ -328,6 +432,9 @@ def R3_dense_index(ctx):
             ctx.check(all(b.dominates(x.bb, c.bb) and c.bb not in b.reachable(start=x.bb) or x.bb != c.bb and c.bb in b.reachable(start=x.bb) and x.bb not in b.reachable(start=c.bb) for x in lens) and bool(lens), "insert:len-before-insert", "map.len() is read after the insertion", c.where())
         else:
             ctx.bad("insert:index-shape", "index of the inserted entry is not `existing index or else a default`: %s" % short(idx)[:160], c.where())
+
+
+def _dense_index_rest(ctx, F):
     # new(): enumerate index
     nb = F.need(MAP + "new")
     cls = [F.bodies[p] for p in F.bodies if p.startswith(nb.path + "::{closure")]
@@ -366,6 +473,8 @@ def R3_dense_index(ctx):
             if oks:
                 crt = nosite(deep_strip(Terms(F.need(srt[0][2][1][1])).return_term()))
                 oks = crt == ("field", ("field", ("arg", 2), "1"), "index")
+            if not oks and not srt:
+                oks = _sorted_vec_form(F, kb, rows[0].ret)
         ctx.check(oks, "%s:sorted-by-index" % name, "%s() of the hash map is not sorted by the stored index" % name, kb.where(), detail="sorted_by_key(|(_,e)| e.index)")
     # iterator
     it = F.need("<%sCompactOrderedHashMapIter<'a, K, V> as std::iter::Iterator>::next" % C)
@@ -392,6 +501,36 @@ def R3_dense_index(ctx):
     irt = nosite(deep_strip(Terms(ib).return_term()))
     aggs = [x for x in subterms(irt) if x[0] == "agg" and x[1].endswith("CompactOrderedHashMapIter")]
     ctx.check(len(aggs) == 1 and dict(aggs[0][3]) == {"iterable": SELF, "index": ("const", "usize", 0)}, "iter:starts-at-zero", "iter() does not start at index 0 over self", ib.where())
+
+
+def _sorted_vec_form(F, kb, ret):
+    """let mut v: Vec<(&K, usize)> = map.iter().map(|(k, e)| (k, e.index)).collect(); v.sort_by_key(|(_, i)| *i); v.into_iter().map(|(k, _)| k)"""
+    ktm = Terms(kb)
+    m = ("field", ("variant", SELF, "NEntries"), "0")
+    sorts = [c for c in kb.calls() if c.callee and re.search(r"slice::<impl \[T\]>::(sort_by_key|sort_unstable_by_key|sort_by_cached_key)$", c.callee.split("{")[0])]
+    if len(sorts) != 1:
+        return False
+    c = sorts[0]
+    vec = clean(ktm.operand(c.args[0], c.bb))
+    key_cl = ktm.operand(c.args[1], c.bb)
+    base, steps = chain_steps(F, vec)
+    names = [n for n, _ in steps]
+    if not (clean(base) == m and [n for n in names if n not in ("iter", "collect", "into_iter")] == ["map"]):
+        return False
+    pair = [v for n, v in steps if n == "map"][0]
+    if not (pair is not None and pair[0] == "tuple" and len(pair[1]) == 2 and pair[1][0] == ("field", ("elem",), "0") and pair[1][1] == ("field", ("field", ("elem",), "1"), "index")):
+        return False
+    while key_cl[0] in ("mut", "ref"):
+        key_cl = key_cl[1]
+    if not (key_cl[0] == "closure" and key_cl[1] in F.bodies and clean(Terms(F.bodies[key_cl[1]]).return_term()) == ("field", ("arg", 2), "1")):
+        return False
+    # what is handed out: the first component of every element of that vector, in its (sorted) order
+    obase, osteps = chain_steps(F, ret)
+    extra = osteps[len(steps):]
+    if clean(obase) != m or osteps[:len(steps)] != steps or [n for n, _ in extra if n not in ("iter", "into_iter", "collect")] != ["map"]:
+        return False
+    rets = [bb for bb, blk in enumerate(kb.blocks) if blk["term"]["k"] == "return" and not blk["cleanup"]]
+    return [v for n, v in extra if n == "map"][0] == ("field", ("elem",), "0") and bool(rets)
 
 
 def R4_state_model(ctx):
